@@ -5,7 +5,8 @@ Confirms in a scratch worktree: patch applies, builds (also -tags noasm), baseli
 patch and PASSES without it. Then runs the property's quick check against it (tools/seedrun.py)."""
 import glob, json, os, re, shutil, subprocess, sys, tempfile
 pid, i = sys.argv[1], sys.argv[2]
-src = "/tmp/wt_%s/_seed" % pid
+src = os.environ.get("SEED_SRC", "/tmp/wt_%s") % pid + "/_seed"
+offset = int(os.environ.get("SEED_OFFSET", "0"))
 patch = os.path.join(src, "patch%s.diff" % i)
 demos = [d for d in glob.glob(os.path.join(src, "demo%s*" % i))]
 notes = os.path.join(src, "notes%s.md" % i)
@@ -30,9 +31,10 @@ def run_demo(placed):
     ok = True; out = ""
     for dst, sub in placed:
         names = re.findall(r"^func (Test\w+)", open(dst).read(), re.M)
-        r = sh("go test -count=1 -vet=off -run '^(%s)$' ./%s" % ("|".join(names), sub))
-        out += r.stdout[-1500:]
-        ok = ok and r.returncode == 0
+        for tags in ("", "-tags noasm"):
+            r = sh("go test %s -count=1 -vet=off -run '^(%s)$' ./%s" % (tags, "|".join(names), sub))
+            out += r.stdout[-1200:]
+            ok = ok and r.returncode == 0
     return ok, out
 try:
     r = sh("git apply %s" % patch); res["applies"] = r.returncode == 0
@@ -54,13 +56,13 @@ try:
 finally:
     subprocess.run(["git", "-C", "/repo", "worktree", "remove", "--force", wt])
 print(json.dumps(res, indent=1))
-dst = "/verif/seeded/%s-%s" % (pid, i)
+dst = "/verif/seeded/%s-%d" % (pid, int(i) + offset)
 os.makedirs(dst, exist_ok=True)
 shutil.copy(patch, os.path.join(dst, "patch.diff"))
 for d in demos:
     if os.path.isdir(d): shutil.copytree(d, os.path.join(dst, os.path.basename(d)), dirs_exist_ok=True)
     else: shutil.copy(d, os.path.join(dst, os.path.basename(d) + (".txt" if d.endswith(".go") else "")))
 if os.path.exists(notes): shutil.copy(notes, os.path.join(dst, "notes.md"))
-meta = dict(property=pid, id="%s-%s" % (pid, i), source="independent sub-agent given only the property text and a scratch worktree", confirmed=res,
+meta = dict(property=pid, id="%s-%d" % (pid, int(i) + offset), source="independent sub-agent given only the property text and a scratch worktree", confirmed=res,
             needs_to_manifest="see notes.md", ran=["git apply patch.diff in a scratch worktree of /repo HEAD", "go build ./... (also -tags noasm)", "tools/baseline_off.py (180 stable tests)", "demo test with and without the patch"])
 json.dump(meta, open(os.path.join(dst, "meta.json"), "w"), indent=1)
